@@ -49,6 +49,8 @@ def classes(h):
         out.append('backport_prelude')
     if 'rename_prelude' in h.flags:
         out.append('rename_prelude')
+    if 'same_tree_prelude' in h.flags:
+        out.append('same_tree_prelude')
     return out
 
 
@@ -130,11 +132,59 @@ def rename_prelude(data, hist):
     hist.flags.add('rename_prelude')
 
 
+def same_tree_prelude(data, hist):
+    """A development branch is created right above an existing one (the
+    create-branch job: same commit, same content), then two pull requests
+    forked from the same commit of the lower branch are merged one after
+    the other: the second merge is a real merge on the lower branch while
+    the next branch receives identical content."""
+    import re
+    from hypothesis import strategies as st
+    from vf.sim.world import AUTHOR, AUTHOR2, PEER1, PEER2
+    w = hist.world
+    chain = [n for n in w.chain if n in w.heads() and
+             re.match(r'development/\d+\.\d+$', n)]
+    if not chain:
+        return
+    dst = chain[data.draw(st.integers(0, len(chain) - 1), label='stdst')]
+    major, minor = dst.split('/')[1].split('.')
+    new = 'development/%s.%d' % (major, int(minor) + 1)
+    if new in w.heads():
+        return
+    hist.apply({'op': 'admin', 'kind': 'create_branch',
+                'args': {'branch': new}})
+    hist.apply({'op': 'drain'})
+    if new not in w.heads():
+        return
+    hist.apply({'op': 'open_pr', 'src': 'bugfix/TEST-1-st', 'dst': dst,
+                'author': AUTHOR, 'base_back': 0})
+    hist.apply({'op': 'open_pr', 'src': 'feature/TEST-2-st', 'dst': dst,
+                'author': AUTHOR2, 'base_back': 0})
+    for pr in sorted(w.prs):
+        for u in (PEER1, PEER2, w.prs[pr]['author']):
+            hist.apply({'op': 'approve', 'pr': pr, 'user': u})
+        for _ in range(2):
+            hist.apply({'op': 'pr_event', 'pr': pr})
+            hist.apply({'op': 'report_pr', 'pr': pr, 'state': 'SUCCESSFUL'})
+        hist.apply({'op': 'pr_event', 'pr': pr})
+        if w.mode != 'noqueue':
+            hist.apply({'op': 'report_queue', 'states': ['SUCCESSFUL']})
+            qs = sorted(n for n in w.heads() if n.startswith('q/') and
+                        not n.startswith('q/w/'))
+            if qs:
+                hist.apply({'op': 'commit_event', 'sel': {'ref': qs[0]}})
+        if hist.violations:
+            return
+    hist.flags.add('same_tree_prelude')
+
+
 def prelude(data, hist):
     from hypothesis import strategies as st
     if hist.params.get('rename') and data.draw(st.integers(0, 1),
                                                label='rename_prelude'):
         return rename_prelude(data, hist)
+    if data.draw(st.integers(0, 4), label='same_tree') == 0:
+        return same_tree_prelude(data, hist)
     if data.draw(st.integers(0, 5), label='backport') == 0:
         return backport_prelude(data, hist)
     # uniform histories rarely hold several queued PRs at once: in half of
